@@ -58,7 +58,7 @@ structure SaveShape (P : Params V) (d d' : Doc V) (i : SaveInfo) : Prop where
   /-- the row of every object written by this save points at the record of that object -/
   pending : ∀ (j : Nat) (v : V) (g : Nat), chLookup d'.st.changes j = some (v, g) →
       ∃ off, d'.st.start ≤ off ∧ i.rows[j]? = some (.raw (off - d'.st.start) g) ∧
-        ∃ o, objAt d'.st.objs off = some o ∧ o.off = off ∧ o.id = j ∧ o.gen = g ∧ o.val = v
+        ∃ o, objAt d'.st.objs off = some o ∧ o.off = off ∧ o.id = j ∧ o.gen = g ∧ (j ≠ i.xid → o.val = v)
   /-- every object appended has a number below /Size -/
   ids_lt : ∃ ext, d'.st.objs = d.st.objs ++ ext ∧ ∀ o ∈ ext, o.id < i.size
   xid_fresh : d.st.refs.length ≤ i.xid
@@ -67,6 +67,7 @@ theorem save_shape (P : Params V) (L : Layout) (hL : L.Pos) (d0 d d' : Doc V) (c
     (hb : BaseOK d0 chain0) (hi : Inv d0 d) (h : save P L d = (d', .ok i)) : SaveShape P d d' i := by
   have pf := prep_facts d0 d chain0 hb hi
   obtain ⟨w, rows, hw, hr, hst, hl, hxid, hxpos, hsize, hrows, _⟩ := save_ok_spec P L d d' i h
+  have hinfo := (save_ok_info P L d d' i h w rows hw hr).symm
   subst hrows
   obtain ⟨f1, f2, f3, _⟩ := writeChanges_frame P L _ _ _ _ _ hw pf.inv.sorted
   obtain ⟨k1, ⟨ext, k2, k3⟩, k4, k5⟩ := writeChanges_ok P L _ hL.1 _ _ _ hw pf.inv.sorted pf.inv.objs_lt
@@ -80,11 +81,12 @@ theorem save_shape (P : Params V) (L : Layout) (hL : L.Pos) (d0 d d' : Doc V) (c
   rw [take_all _ _ (by omega)] at hr
   obtain ⟨r1, r2⟩ := rowsOf_spec _ _ hr
   have hrefs : d'.st.refs = w.refs.set (prep d).xid (.raw (w.len - (prep d).st2.start) 0) := by rw [hst]; rfl
-  have hobjs : d'.st.objs = w.objs ++ [⟨w.len, (prep d).xid, 0, P.xrefVal, []⟩] := by rw [hst]; rfl
+  have hobjs : d'.st.objs = w.objs ++ [⟨w.len, (prep d).xid, 0, P.xrefRec d.tr (prep d).infoRef i, []⟩] := by
+    rw [hst]; simp only [commit]; rw [hinfo]
   have hst' : d'.st.start = (prep d).st2.start := by rw [hst]; rfl
   have hlook : ∀ j, chLookup d'.st.changes j =
-      if j = (prep d).xid then some (P.xrefVal, 0) else chLookup (prep d).st2.changes j := by
-    intro j; rw [hst]; simp [commit, chLookup_chInsert]
+      if j = (prep d).xid then some (P.xrefVal i, 0) else chLookup (prep d).st2.changes j := by
+    intro j; rw [hst]; simp only [commit]; rw [hinfo]; simp [chLookup_chInsert]
   refine
     { section_at := ?_, rows_len := ?_, table_len := by rw [hrefs, hlen4, hxid], rows_of_table := ?_,
       pending := ?_, ids_lt := ?_, xid_fresh := by rw [hxid]; exact pf.xid_ge }
@@ -108,7 +110,7 @@ theorem save_shape (P : Params V) (L : Layout) (hL : L.Pos) (d0 d d' : Doc V) (c
       obtain ⟨rfl, rfl⟩ := hc
       obtain ⟨r, ra, rb⟩ := r2 (prep d).xid _ (set_get_self _ _ _ hxlt)
       simp only [rowOf, Option.some.injEq] at ra; subst ra
-      refine ⟨w.len, by omega, by rw [heq]; exact rb, ⟨w.len, (prep d).xid, 0, P.xrefVal, []⟩, ?_, rfl, heq.symm, rfl, rfl⟩
+      refine ⟨w.len, by omega, by rw [heq]; exact rb, ⟨w.len, (prep d).xid, 0, P.xrefRec d.tr (prep d).infoRef i, []⟩, ?_, rfl, heq.symm, rfl, fun hne => absurd (heq.trans hxid.symm) hne⟩
       rw [hobjs, objAt_append_right]
       · simp [objAt]
       · intro o ho; have := k4 o ho; omega
@@ -116,10 +118,10 @@ theorem save_shape (P : Params V) (L : Layout) (hL : L.Pos) (d0 d d' : Doc V) (c
       obtain ⟨_, _, off, a, b, c⟩ := k5 j v g hc
       obtain ⟨r, ra, rb⟩ := r2 j _ (by rw [set_get_ne _ _ _ _ (Ne.symm hne)]; exact b)
       simp only [rowOf, Option.some.injEq] at ra; subst ra
-      exact ⟨off, by omega, rb, _, by rw [hobjs]; exact objAt_append_left _ _ _ _ c, rfl, rfl, rfl, rfl⟩
+      exact ⟨off, by omega, rb, _, by rw [hobjs]; exact objAt_append_left _ _ _ _ c, rfl, rfl, rfl, fun _ => rfl⟩
   · obtain ⟨ext2, e1, e2⟩ := writeChanges_ext_ids P L _ _ _ _ hw
     simp only at e1 e2
-    refine ⟨ext2 ++ [⟨w.len, (prep d).xid, 0, P.xrefVal, []⟩], by rw [hobjs, e1, pf.objs_eq]; simp, ?_⟩
+    refine ⟨ext2 ++ [⟨w.len, (prep d).xid, 0, P.xrefRec d.tr (prep d).infoRef i, []⟩], by rw [hobjs, e1, pf.objs_eq]; simp, ?_⟩
     intro o ho
     rw [hsize]
     simp only [List.mem_append, List.mem_singleton] at ho
